@@ -1,7 +1,7 @@
 CONSTANTS
   Mode = "dec"
   DataLens = {0, 1, 2, 3, 4, 100, 1500}
-  MaxPad = 4
+  MaxPad = 5
   MaxSlash = 3
 INIT Init
 NEXT Stutter
